@@ -230,6 +230,11 @@ def build_harness(ctx):
     if rc != 0:
         ctx.note("harness build FAILED:\n" + out[-3000:])
         ctx.cov["harness_build_error"] = out[-1500:]
+    if rc == 0:
+        al = os.path.join(CACHE, "alnum.txt")
+        if not os.path.exists(al) or os.path.getmtime(al) < os.path.getmtime(LH):
+            with open(al, "w") as f:
+                subprocess.run([LH, "alnum"], stdout=f)
     return rc == 0
 
 
